@@ -22,7 +22,13 @@ func C16_writer_sticky() {
 		w.noFlush = vBool("noflush")
 		w.err = vErrDst
 		var err error
-		switch vChoose("kind", 4) {
+		kind := vChoose("kind", 5)
+		switch kind {
+		case 4: // ReadFrom: whatever it returns, nothing may reach the destination
+			src := vNewSrc(vBytes("p", vChoose("plen", 6)), 0, "chunk")
+			w.ReadFrom(&src)
+			vAssert(len(dst.calls) == 0, "sticky.readfrom_sends_nothing")
+			return
 		case 0:
 			_, err = w.Write(vBytes("p", vChoose("plen", 6)))
 		case 1:
